@@ -463,4 +463,27 @@ def checkEng (params lines : List String) : CaseResult := Id.run do
   let _ := params
   return { r with nontrivial := r.ok && (ops.length ≥ 2 || own.any (fun w => w.2.head? == some "extra")) }
 
+/-- Family `c08kind`: a declared result stored twice with values of different kinds; the condition behind the second store
+reads the new value. Expected: the token ends at `endDone`, no error trace, the instance ceases. -/
+def checkKind (params lines : List String) : CaseResult := Id.run do
+  let mut r : CaseResult := { nontrivial := true }
+  let name := params.getD 1 "?"
+  let mut ends : List String := []
+  let mut ceased := false
+  for ln in lines do
+    match words ln with
+    | "harness-error" :: _ => r := { r with bad := ln :: r.bad }
+    | "obs" :: "error" :: rest =>
+      r := { r with specs := s!"result_of_new_kind_not_seen: error trace after the second store ({name}): {" ".intercalate rest}" :: r.specs }
+    | ["obs", "end", e] => ends := ends ++ [e]
+    | ["obs", "cease"] => ceased := true
+    | ["obs", "timeout"] => r := { r with specs := s!"result_kind_run_stuck: the instance does not finish ({name})" :: r.specs }
+    | _ => pure ()
+  if r.specs.isEmpty && r.bad.isEmpty then
+    if ends != ["endDone"] then
+      r := { r with specs := s!"result_of_new_kind_not_seen: the token ended at {ends}, expected [endDone]: the condition behind the second store did not read the stored value ({name})" :: r.specs }
+    else if !ceased then
+      r := { r with bad := ["c08kind: incomplete record"] }
+  return r
+
 end Bpmn.Driver.C08
